@@ -231,16 +231,43 @@ Definition sp_drain (c : cfg) (st : astate) (nx : N) (v : nat) (sb eb : bound) (
       end
   end.
 
+(** ** clone / clone_empty / clone_empty_in *)
+
+(** identities of the [n] values created next *)
+Definition next_ids (c : cfg) (nx : N) (n : nat) : list N := map (fun k => tok c (nx + N.of_nat k)) (seq 0 n).
+
+(** [v.clone()] into slot [dst] (another slot): the i-th element of the result is a clone of the source's
+    i-th element - a NEW value, one Clone call per element in index order; same backend kind; the source
+    is untouched *)
+Definition sp_clone (c : cfg) (st : astate) (nx : N) (v dst : nat) : option sres :=
+  if Nat.eqb dst v then None
+  else match get_a v st with
+       | None => None
+       | Some a =>
+           let xs := a_xs a in
+           let ys := next_ids c nx (length xs) in
+           Some (ok_res [] (map (fun p => EClone (fst p) (snd p)) (combine xs ys))
+                        (set_a dst (Some {| a_bk := a_bk a; a_xs := ys |}) st) (nx + N.of_nat (length xs)))
+       end.
+
+(** an empty vector of the same element type on backend [bk] *)
+Definition sp_new (c : cfg) (st : astate) (nx : N) (dst : nat) (bk : bkind) : option sres :=
+  match bk with
+  | BStackN n size =>
+      if stackn_fits n (c_sz c) size
+      then Some (ok_res [] [] (set_a dst (Some {| a_bk := bk; a_xs := [] |}) st) nx)
+      else Some (panic_res PStackN [] st nx)
+  | _ => Some (ok_res [] [] (set_a dst (Some {| a_bk := bk; a_xs := [] |}) st) nx)
+  end.
+
 Definition spec_step (c : cfg) (st : astate) (nx : N) (o : op) : option sres :=
   match o with
-  | ONew dst bk =>
-      match bk with
-      | BStackN n size =>
-          if stackn_fits n (c_sz c) size
-          then Some (ok_res [] [] (set_a dst (Some {| a_bk := bk; a_xs := [] |}) st) nx)
-          else Some (panic_res PStackN [] st nx)
-      | _ => Some (ok_res [] [] (set_a dst (Some {| a_bk := bk; a_xs := [] |}) st) nx)
-      end
+  | ONew dst bk => sp_new c st nx dst bk
+  | OClone v dst => sp_clone c st nx v dst
+  | OCloneEmpty v dst =>
+      match get_a v st with Some a => if Nat.eqb dst v then None else sp_new c st nx dst (a_bk a) | None => None end
+  | OCloneEmptyIn v dst bk =>
+      match get_a v st with Some _ => if Nat.eqb dst v then None else sp_new c st nx dst bk | None => None end
   | OPush _ v s => if fresh_src s then sp_offer c st nx v None else None
   | OInsert _ v idx s => if fresh_src s then sp_offer c st nx v (Some idx) else None
   | OPop _ v k => sp_take c st nx v TPop 0 k
